@@ -536,6 +536,39 @@ impl World {
             fresh.sort_unstable();
             ev["fresh"] = json!(fresh);
         }
+        // shapes (chain lengths, flags, flavours) for the conformance check of the lifecycle model
+        {
+            let mut items: Vec<String> = after_view["rights"]
+                .as_array()
+                .cloned()
+                .unwrap_or_default()
+                .iter()
+                .map(|r| {
+                    let ch = r["ch"].as_array().cloned().unwrap_or_default();
+                    format!(
+                        "{}:{}:{}",
+                        ch.len(),
+                        ch.first().map_or(0, |h| h["a"].as_bool().unwrap_or(false) as u8),
+                        ch.first().map_or(0, |h| h["h"].as_bool().unwrap_or(false) as u8)
+                    )
+                })
+                .collect();
+            items.sort();
+            ev["shape"] = json!({"msk": items.join(",")});
+            if let Some(u) = op.get("u").and_then(Value::as_str) {
+                if let Some((usk, _)) = self.usks.get(u) {
+                    let mut lens: Vec<usize> = usk.verif_view()["ch"]
+                        .as_array()
+                        .cloned()
+                        .unwrap_or_default()
+                        .iter()
+                        .map(|c| c["c"].as_array().map_or(0, Vec::len))
+                        .collect();
+                    lens.sort_unstable();
+                    ev["shape"]["usk"] = json!(lens.iter().map(|x| x.to_string()).collect::<Vec<_>>().join(","));
+                }
+            }
+        }
         let mskv = self.ren.rename(&after_view);
         let txt = mskv.to_string();
         if txt != self.last_msk {
